@@ -254,7 +254,7 @@ class Explorer:
                  may_raise: Optional[Callable[[Event], bool]] = None,
                  unroll: int = 2, max_depth: int = 5, max_paths: int = MAX_PATHS,
                  inline_ctor: bool = True, alias: str = 'distinct', inline_private: bool = True,
-                 opaque=(), cold_fields=None, on_cold_read=None, self_cls=None):
+                 opaque=(), cold_fields=None, on_cold_read=None, self_cls=None, cold_invalidators=None):
         self.ix, self.pta = ix, pta
         self._inline = inline
         self._may_raise = may_raise
@@ -272,6 +272,9 @@ class Explorer:
         self.self_cls = self_cls
         self.cold_fields = set(cold_fields or ())
         self.on_cold_read = on_cold_read
+        # field -> qualnames of the functions that invalidate it (store None); a callee that can only *fill* a
+        # lazy cache cannot change a value that is already there
+        self.cold_invalidators = dict(cold_invalidators or {})
         self._writes_cache: Dict[str, Set[object]] = {}
         self._npaths = 0
         self.dropped = 0
@@ -1408,10 +1411,22 @@ class Explorer:
                 flds.add('[]')
         if not flds:
             return
+        keep = set()
+        if self.cold_fields & flds:
+            reach = set()
+            for c in internal:
+                reach |= self.pta.reachable([c])
+            for fld in self.cold_fields & flds:
+                if not (self.cold_invalidators.get(fld, set()) & reach):
+                    keep.add(fld)          # the callee may fill the cache, it never empties it
         for fld in flds:
+            if fld in keep and any(hk[1] == fld and key_of(v) != NONE for hk, v in s.heap.items()):
+                continue
             s.fver[fld] = s.fver.get(fld, 0) + 1
         for hk in list(s.heap):
             fk = hk[1]
+            if fk in keep and key_of(s.heap[hk]) != NONE:
+                continue
             if fk in flds or (isinstance(fk, tuple) and fk and fk[0] == '[]' and '[]' in flds):
                 del s.heap[hk]
 
